@@ -171,6 +171,9 @@ func bagDiff(a, b map[string]int) (onlyA, onlyB []string) {
 }
 
 func runC14(c *Ctx) {
+	// the pool's stop-tag methods hand the model's error to their caller
+	c.armPoolError("T4-pool-reports-the-error", func(m string) bool { return strings.Contains(m, "StopTag") }, 4)
+
 	for _, pr := range c14Pairs {
 		tagged := c.MustFn("T1-tag-after-each-rule", "engine", "Gengine", pr[0])
 		plain := c.MustFn("T3-sibling-agreement", "engine", "Gengine", pr[1])
